@@ -480,3 +480,28 @@ def validate_evidence(ev):
     for k in ('property_id', 'tier', 'seed', 'level', 'coverage', 'wall_s'):
         if k not in ev:
             raise Infra('evidence lacks ' + k)
+
+
+def do_replay(mod, pid, path, level):
+    """./check Cxx --replay file: first the module's own targeted replay (re-evaluates the recorded case on the current
+    tree); if the module has none, or it reports nothing, re-run the whole check deterministically with the recorded
+    tier and seed (dev mode: no evidence is rewritten). Exit 1 + VIOLATION line iff the violation is still there."""
+    body = json.load(open(path))
+    tier, seed = body.get('tier', 'quick'), int(body.get('seed', 0))
+    ctx = Ctx(pid, tier, seed, level=level)
+    ctx.nolean = True
+    rc = None
+    if hasattr(mod, 'replay') and not getattr(mod, 'REPLAY_GENERIC', False):
+        try:
+            rc = mod.replay(ctx, path)
+        except Exception as ex:
+            print('targeted replay failed ({!r}); falling back to a full deterministic re-run'.format(ex))
+            rc = None
+    if rc == 1:
+        print('VIOLATION property={} replay={}'.format(pid, path))
+        return 1
+    if rc == 0 and not getattr(mod, 'REPLAY_RERUN', True):
+        return 0
+    ctx = Ctx(pid, tier, seed, level=level)
+    ctx.nolean = True
+    return mod.run(ctx)
